@@ -22,6 +22,10 @@ VARIANTS = {
                       '-fno-sanitize-recover=all', GUARD], []),
     'msan':  ('clang', ['-O1', '-g', '-fno-omit-frame-pointer', '-fsanitize=memory',
                         '-fsanitize-memory-track-origins', GUARD], []),
+    # the shipped configuration (asserts compiled out), with and without ASan: used for one-off explorations
+    'ndebug': ('gcc', ['-O2', '-g', '-DNDEBUG', GUARD], []),
+    'asan-ndebug': ('gcc', ['-O1', '-g', '-DNDEBUG', '-fno-omit-frame-pointer', '-fsanitize=address,undefined',
+                            '-fno-sanitize-recover=all', GUARD], []),
     'tsan':  ('gcc', ['-O1', '-g', '-fsanitize=thread', GUARD],
               [os.path.join(NATIVE, 'tsan_exit.c')]),
 }
@@ -127,6 +131,8 @@ def compile_objects(cc, flags, sources, outdir, incdirs=()):
 
 def build_lbzip2(variant):
     """Build the whole program from /repo's current working tree."""
+    if variant == 'hook' and os.environ.get('VERIF_FORCE_VARIANT') in VARIANTS:
+        variant = os.environ['VERIF_FORCE_VARIANT']         # exploration only (never set by registered commands)
     cc, flags, extra = VARIANTS[variant]
     key = sha(repo_src_hash(), variant, ' '.join(flags), file_hash(extra) if extra else '')
 
